@@ -208,7 +208,7 @@ fn run_text_on<D: Subject>(src: &str, host: &Host, input: &V) -> Option<String> 
     let r = (|| -> Result<(), Fail> {
         let (_, bd) = compile(src, &mut d)?;
         start(&mut d, *bd.jump_index(), input)?;
-        run_to_end(&mut d, 10_000)?;
+        run_to_end(&mut d, 2_000)?;
         Ok(())
     })();
     match r {
@@ -256,7 +256,7 @@ struct Layout {
 
 fn layout(tier: Tier) -> Layout {
     let s = spaces(tier);
-    Layout { programs: s.t1.len() + s.t2.len() + s.t3.len(), boundary: boundary_programs().len() as u64, deep: (SHAPES.len() * DEPTHS.len() * DEEP_OPS.len() * 2) as u64 }
+    Layout { programs: s.total(), boundary: boundary_programs().len() as u64, deep: (SHAPES.len() * DEPTHS.len() * DEEP_OPS.len() * 2) as u64 }
 }
 
 fn deep_params(i: u64) -> (usize, Shape, usize, &'static str) {
@@ -361,7 +361,7 @@ impl Property for C07 {
     fn meta(&self, tier: Tier) -> Meta {
         let l = layout(tier);
         Meta {
-            rule: format!("(a) the {} programs of the C01 corpora; (b) {} boundary programs: every prefix/suffix operator on, and every binary operator (ranges, casts, concatenation, partial apply, conditionals included) between, 24 boundary literals (i32 limits, 31/32/33/64, huge float, empty and multi-byte text, empty bytes, symbol, unit, list, keyed list, range, concatenation), casts to the type of each literal, and index / apply / slice / slice-of-slice families over 6 container kinds x 8 boundary indexes; each run to completion (step cap 10 000) on both implementations under hosts {{none, declining, accepting}} with a mixed keyed/unkeyed list as input; (c) {} deep-data cases: pairs (left/right nested), lists and concatenations nested 10/100/1 000/10 000 deep built through the data API, then Equal (self, copy), LessThan, casts to CharList/ByteList/Symbol, `.|`, clone_data as single instructions. Verdict: no panic unwinds, no abort, no hang (supervised). Non-trivial: every case; distinct by text / parameters.", l.programs, l.boundary, l.deep),
+            rule: format!("(a) the {} programs of the C01 corpora; (b) {} boundary programs: every prefix/suffix operator on, and every binary operator (ranges, casts, concatenation, partial apply, conditionals included) between, 24 boundary literals (i32 limits, 31/32/33/64, huge float, empty and multi-byte text, empty bytes, symbol, unit, list, keyed list, range, concatenation), casts to the type of each literal, and index / apply / slice / slice-of-slice families over 6 container kinds x 8 boundary indexes; each run to completion (step cap 2 000) on both implementations under hosts {{none, declining, accepting}} with a mixed keyed/unkeyed list as input; (c) {} deep-data cases: pairs (left/right nested), lists and concatenations nested 10/100/1 000/10 000 deep built through the data API, then Equal (self, copy), LessThan, casts to CharList/ByteList/Symbol, `.|`, clone_data as single instructions. Verdict: no panic unwinds, no abort, no hang (supervised). Non-trivial: every case; distinct by text / parameters.", l.programs, l.boundary, l.deep),
             assumptions: vec![
                 "an Err returned by a step is acceptable; only unwinding, aborting and exceeding the wall budget are violations".into(),
                 "a worker that aborts (stack overflow) or hangs is attributed to the in-flight element by the supervisor and confirmed in a fresh process".into(),
